@@ -106,6 +106,9 @@ Inductive obs :=
   | OItems (l : list Z) | OItem (z : Z) | ORaise (e : string)
   | ONew (id : nat) | ONews (first n : nat) | OSelf | ODiverge | OBad.
 
+(* an argument of a multi-argument Stream(..) / append(..): an existing object or a fresh list *)
+Inductive marg := MObj (j : nat) | MFresh (l : list Z).
+
 Inductive op :=
   | ONext (i : nat) | OTake (i : nat) (c : count) | OPeek (i : nat) (c : count)
   | OSkip (i : nat) (c : count) | OLimit (i : nat) (c : count) | OCopy (i : nat)
@@ -113,7 +116,10 @@ Inductive op :=
   | OThub (i n : nat) | OUse (i : nat) | OTee (i n : nat)
   | OThubVal (z : Z) (n : nat) | OTeeVal (z : Z) (n : nat)
   | OAppendObj (i j : nat)          (* s_i.append(obj_j), obj_j an existing Stream or hub *)
-  | OMutateResult (m : nat).        (* the caller mutates, in place, the container a take/peek returned *)
+  | OMutateResult (m : nat)         (* the caller mutates, in place, the container a take/peek returned *)
+  | ORefused (e : string)           (* a call that is refused with exception e (mixed arguments, bad constructor ..) *)
+  | OMulti (tgt : option nat) (args : list marg).
+      (* Stream(a, b, ..) (tgt = None: a new object) or s_i.append(a, b, ..) (tgt = Some i), two or more iterables *)
 
 Fixpoint set_nth {A} (i : nat) (x : A) (l : list A) : list A :=
   match l, i with
@@ -183,6 +189,31 @@ Definition do_take (st : state) (i : nat) (c : count) : state * obs :=
   | _ => (st, OBad)
   end.
 
+(* chain of iter(arg) for every arg: every argument gives up its iterator NOW, left to right
+   (a hub is charged one use, a Stream hands over its own iterator); an IndexError of a later
+   hub leaves the earlier ones charged *)
+Fixpoint gather (st : state) (args : list marg) : (state * list lseq) + (state * obs) :=
+  match args with
+  | [] => inl (st, [])
+  | MFresh l :: r =>
+      match gather st r with
+      | inl (st', ss) => inl (st', fin l :: ss)
+      | inr e => inr e
+      end
+  | MObj j :: r =>
+      match give st j with
+      | inl (Some (st1, s)) =>
+          match gather st1 r with
+          | inl (st', ss) => inl (st', s :: ss)
+          | inr e => inr e
+          end
+      | inl None => inr (st, OBad)
+      | inr e => inr (st, ORaise e)
+      end
+  end.
+Definition lchain (ss : list lseq) : lseq :=
+  match ss with [] => lempty | s :: r => fold_left lappend r s end.
+
 Definition step (st : state) (o : op) : state * obs :=
   match o with
   | ONext i =>
@@ -248,6 +279,25 @@ Definition step (st : state) (o : op) : state * obs :=
       | _ => (st, OBad)
       end
   | OMutateResult _ => (st, OSelf)   (* returned containers are fresh values: no object changes *)
+  | ORefused e => (st, ORaise e)     (* a refused call builds nothing and changes NOTHING *)
+  | OMulti tgt ((_ :: _ :: _) as args) =>
+      match tgt with
+      | None =>
+          match gather st args with
+          | inl (st', ss) => (st' ++ [EStream (lchain ss)], ONew (List.length st))
+          | inr (st', ob) => (st', ob)
+          end
+      | Some i =>
+          match nth_error st i with
+          | Some (EStream _) =>
+              match gather st args with
+              | inl (st', ss) => apply_t st' i (fun si => TOk (lappend si (lchain ss)))
+              | inr (st', ob) => (st', ob)
+              end
+          | _ => (st, OBad)
+          end
+      end
+  | OMulti _ _ => (st, OBad)
   end.
 
 Fixpoint run (st : state) (ops : list op) : list obs :=
@@ -264,16 +314,23 @@ Definition target (o : op) : option nat :=
   | OMap i _ | OFilter i _ | OThub i _ | OUse i | OTee i _ => Some i
   | OThubVal _ _ | OTeeVal _ _ => None
   | OAppendObj i _ => Some i
-  | OMutateResult _ => None
+  | OMutateResult _ | ORefused _ => None
+  | OMulti tgt _ => tgt
   end.
-(* a second object the operation reads / uses up *)
-Definition arg (o : op) : option nat :=
-  match o with OAppendObj _ j => Some j | _ => None end.
+(* the other objects the operation reads / uses up *)
+Definition marg_obj (a : marg) : list nat := match a with MObj j => [j] | MFresh _ => [] end.
+Definition uses (o : op) : list nat :=
+  match o with
+  | OAppendObj _ j => [j]
+  | OMulti _ args => flat_map marg_obj args
+  | _ => []
+  end.
 
 (* the state after a history *)
 Fixpoint final (st : state) (ops : list op) : state :=
   match ops with [] => st | o :: r => final (fst (step st o)) r end.
 
 (* histories over finite sources only (no periodic Stream(a, b, ..) in the pool or appended) *)
-Definition fin_op (o : op) : Prop := match o with OAppend _ (PCyc _) => False | _ => True end.
+Definition fin_op (o : op) : Prop :=
+  match o with OAppend _ (PCyc _) => False | OMulti _ _ => False | _ => True end.
 Definition fin_pool (p : pool) : Prop := match p with PFin _ => True | PCyc _ => False end.
